@@ -424,6 +424,10 @@ fn validate(ctx: &Context<impl Channel>) -> Result<(), Error> {
         num_inputs,
         ..
     } = ctx;
+    // Circuit::validate() indexes its register table unchecked when there are no registers at all.
+    if circ.max_reg_count == 0 {
+        return Err(CircuitError::EmptyOutputs.into());
+    }
     circ.validate()?;
     let Some(expected_inputs) = circ.input_regs.get(p_own) else {
         return Err(Error::PartyDoesNotExist);
